@@ -1,7 +1,284 @@
 package model
 
+import (
+	"fmt"
+	"reflect"
+	"strings"
+	"time"
+
+	"github.com/gammazero/nexus/v3/wamp"
+
+	"verif/harness/canon"
+)
+
+// Epoch is the wall-clock time at virtual time zero inside a synctest bubble.
+var Epoch = time.Date(2000, 1, 1, 0, 0, 0, 0, time.UTC)
+
+// histEntryView is one returned history entry in representation-independent form.
+type histEntryView struct {
+	pub     uint64
+	payload string
+	topic   string
+	hasTop  bool
+}
+
+// viewEntry reads an entry that is either a struct (in-process askers get the
+// router's own value) or a map (serialised transports).
+func viewEntry(v any) (histEntryView, bool) {
+	var out histEntryView
+	get := func(name string) (any, bool) {
+		if d, ok := canon.AsDict(v); ok {
+			for k, e := range d {
+				if strings.EqualFold(k, name) {
+					return e, true
+				}
+			}
+			return nil, false
+		}
+		rv := reflect.ValueOf(v)
+		if rv.Kind() == reflect.Pointer && !rv.IsNil() {
+			rv = rv.Elem()
+		}
+		if rv.Kind() == reflect.Struct {
+			f := rv.FieldByNameFunc(func(n string) bool { return strings.EqualFold(n, name) })
+			if f.IsValid() && f.CanInterface() {
+				return f.Interface(), true
+			}
+		}
+		return nil, false
+	}
+	p, ok := get("publication")
+	if !ok {
+		return out, false
+	}
+	out.pub, _ = canon.AsID(p)
+	args, _ := get("arguments")
+	kw, _ := get("argumentskw")
+	al, _ := canon.AsList(args)
+	kd, _ := canon.AsDict(kw)
+	out.payload = canon.Payload(wamp.List(al), wamp.Dict(kd))
+	if det, ok := get("details"); ok {
+		if dd, ok := canon.AsDict(det); ok {
+			if t, ok := canon.AsStr(dd["topic"]); ok {
+				out.topic, out.hasTop = t, true
+			}
+		}
+	}
+	return out, true
+}
+
+func parseTime(v any) (time.Duration, bool, bool) { // value, present-and-string, valid
+	s, ok := canon.AsStr(v)
+	if !ok {
+		return 0, false, false
+	}
+	t, err := time.Parse(time.RFC3339, s)
+	if err != nil {
+		return 0, true, false
+	}
+	return t.Sub(Epoch), true, true
+}
+
 // obsGetEvents checks wamp.subscription.get_events against the history model.
 func (m *Monitor) obsGetEvents(s *step, rl *Realm, args []any, kw map[string]any) {
-	// filled in by the C20 work; until then only "answered" is required
-	m.metaResult(s, "EH0", "get_events answered", nil)
+	_ = s.op
+	id, idOK := canon.AsID(argAt(args, 0))
+	if len(args) == 0 || !idOK || id == 0 {
+		m.metaError(s, "EH0", ErrInvalidArg)
+		return
+	}
+	var sub *Sub
+	for _, x := range rl.Subs {
+		if x.ID == id {
+			sub = x
+		}
+	}
+	// ---- filters (decided domain: well-typed values; ill-typed ones must be refused)
+	invalid := false
+	limit := 0
+	if v, ok := kw["limit"]; ok {
+		n, _, f, kind := canon.Num(v)
+		switch kind {
+		case 'i':
+			limit = int(n)
+		case 'u':
+			_, u, _, _ := canon.Num(v)
+			limit = int(u)
+		case 'f':
+			limit = int(f)
+			if f != float64(limit) {
+				invalid = true
+			}
+		default:
+			invalid = true
+		}
+		if limit < 1 {
+			invalid = true
+		}
+	}
+	reverse := false
+	if v, ok := kw["reverse"]; ok {
+		b, isb := v.(bool)
+		if !isb {
+			invalid = true
+		}
+		reverse = b
+	}
+	type tf struct {
+		d       time.Duration
+		present bool
+	}
+	times := map[string]tf{}
+	for _, k := range []string{"from_time", "after_time", "before_time", "until_time"} {
+		if v, ok := kw[k]; ok {
+			d, isStr, valid := parseTime(v)
+			if !isStr || !valid {
+				invalid = true
+			}
+			times[k] = tf{d, true}
+		}
+	}
+	pubs := map[string]uint64{}
+	for _, k := range []string{"from_publication", "after_publication", "before_publication", "until_publication"} {
+		if v, ok := kw[k]; ok {
+			p, ok := canon.AsID(v)
+			if !ok || p < 1 {
+				invalid = true
+			}
+			pubs[k] = p
+		}
+	}
+	topicF, hasTopic := "", false
+	if v, ok := kw["topic"]; ok {
+		if t, ok := canon.AsStr(v); ok {
+			topicF, hasTopic = t, t != ""
+		}
+	}
+	if invalid {
+		m.metaError(s, "EH2", ErrInvalidArg)
+		return
+	}
+	var entries []HistEntry
+	full := false
+	if sub != nil && sub.Hist != nil {
+		entries = append(entries, sub.Hist.Entries...)
+		full = len(sub.Hist.Entries) >= sub.Hist.Limit
+	}
+	// select
+	idx := func(p uint64) int {
+		for i, e := range entries {
+			if e.Pub == p {
+				return i
+			}
+		}
+		return -1
+	}
+	lo, hi := 0, len(entries) // [lo, hi)
+	if p, ok := pubs["from_publication"]; ok {
+		if i := idx(p); i >= 0 {
+			lo = max(lo, i)
+		} else {
+			lo = len(entries)
+		}
+	}
+	if p, ok := pubs["after_publication"]; ok {
+		if i := idx(p); i >= 0 {
+			lo = max(lo, i+1)
+		} else {
+			lo = len(entries)
+		}
+	}
+	if p, ok := pubs["before_publication"]; ok {
+		if i := idx(p); i >= 0 {
+			hi = min(hi, i)
+		}
+	}
+	if p, ok := pubs["until_publication"]; ok {
+		if i := idx(p); i >= 0 {
+			hi = min(hi, i+1)
+		}
+	}
+	var sel []HistEntry
+	for i := lo; i < hi && i < len(entries); i++ {
+		e := entries[i]
+		if f := times["from_time"]; f.present && e.At < f.d {
+			continue
+		}
+		if f := times["after_time"]; f.present && e.At <= f.d {
+			continue
+		}
+		if f := times["before_time"]; f.present && e.At >= f.d {
+			continue
+		}
+		if f := times["until_time"]; f.present && e.At > f.d {
+			continue
+		}
+		if hasTopic && e.Topic != topicF {
+			continue
+		}
+		sel = append(sel, e)
+	}
+	if limit > 0 && len(sel) > limit {
+		sel = sel[len(sel)-limit:]
+	}
+	if reverse {
+		for i, j := 0, len(sel)-1; i < j; i, j = i+1, j-1 {
+			sel[i], sel[j] = sel[j], sel[i]
+		}
+	}
+	pattern := sub != nil && sub.Key.policy != Exact
+	filters := fmt.Sprint(kw)
+	m.R.Hit("EH1")
+	m.metaResult(s, "EH2", "get_events", func(a []any, rkw map[string]any) string {
+		if len(a) != len(sel) {
+			var got []uint64
+			for _, x := range a {
+				if v, ok := viewEntry(x); ok {
+					got = append(got, v.pub)
+				}
+			}
+			var want []uint64
+			for _, e := range sel {
+				want = append(want, e.Pub)
+			}
+			return fmt.Sprintf("filters %s over %d retained entries: expected publications %v, got %v", filters, len(entries), want, got)
+		}
+		for i, x := range a {
+			v, ok := viewEntry(x)
+			if !ok {
+				return fmt.Sprintf("entry %d is not an event record: %T", i, x)
+			}
+			e := sel[i]
+			m.R.Hit("EH3")
+			if e.PubKnown && v.pub != e.Pub {
+				var got, want []uint64
+				for _, y := range a {
+					if vv, ok := viewEntry(y); ok {
+						got = append(got, vv.pub)
+					}
+				}
+				for _, ee := range sel {
+					want = append(want, ee.Pub)
+				}
+				return fmt.Sprintf("filters %s: expected publications %v in this order, got %v", filters, want, got)
+			}
+			m.R.Hit("EH4")
+			if v.payload != e.Payload {
+				return fmt.Sprintf("entry %d (publication %d): payload %s, published %s", i, v.pub, v.payload, e.Payload)
+			}
+			if v.hasTop && v.topic != e.Topic {
+				return fmt.Sprintf("entry %d: topic %q, published to %q", i, v.topic, e.Topic)
+			}
+			if pattern && !v.hasTop {
+				return fmt.Sprintf("entry %d of a pattern history subscription lacks the original topic %q", i, e.Topic)
+			}
+		}
+		if sub != nil && sub.Hist != nil {
+			m.R.Hit("EH7")
+			if b, ok := rkw["is_limit_reached"].(bool); !ok || b != full {
+				return fmt.Sprintf("is_limit_reached=%v, store holds %d of %d", rkw["is_limit_reached"], len(entries), sub.Hist.Limit)
+			}
+		}
+		return ""
+	})
 }
